@@ -935,12 +935,12 @@ int main(int argc, char** argv) {
     build_families(fam, false, {0, 1, 2, 3});
     build_families(famslice, false, {0, 2});
     run.note(fmt("alphabet: %zu lattice members (g=3, n=5..7, start-fixed, both orientations, collinear allowed, + one repeated-vertex version each); %zu family members", lat36.size(), fam.size()));
-    run_search(FRACTURE, "fracture", "g=3 n=5..7 (+1 repeated-vertex version each) x max_points {5,6,7,8} x 3 precisions, + limits {0..4}", lat36, 8, LIM, 3, {}, 20);
-    run_search(FRACTURE, "fracture", "families (small parameters) x 4 orientations x max_points {5,6,7,8,12,20} x 3 precisions, + limits {0..4}", fam, 1, LIMF, 0, {}, 30);
-    run_search(SLICE, "slice", "g=3 n=5..7 (+dup) x every sorted list of <=3 positions from {-1,0,1/2,..,3} x 2 axes, scaling 1000", lat36, 2, {}, 3, {}, 20);
-    run_search(SLICE, "slice", "families (small parameters) x 2 orientations x sorted lists of <=3 positions around min/mid/max x 2 axes", famslice, 1, {}, 0, {}, 30);
-    run_search(WRITER, "writer", "g=3 n=5..7 (+dup) x write_gds max_points {5,6,7,8,0,4} x 4 unit/precision configurations", lat36, 64, LIM, 3, ALLCFG, 30);
-    run_search(WRITER, "writer", "families (small parameters) x write_gds max_points {5,6,7,8,12,20,0,4} x 4 configurations", fam, 4, LIMF, 0, ALLCFG, 30);
+    run_search(FRACTURE, "fracture", "g=3 n=5..7 (+1 repeated-vertex version each) x max_points {5,6,7,8} x 3 precisions, + limits {0..4}", lat36, 8, LIM, 3, {}, 5);
+    run_search(FRACTURE, "fracture", "families (small parameters) x 4 orientations x max_points {5,6,7,8,12,20} x 3 precisions, + limits {0..4}", fam, 1, LIMF, 0, {}, 10);
+    run_search(WRITER, "writer", "g=3 n=5..7 (+dup) x write_gds max_points {5,6,7,8,0,4} x 4 unit/precision configurations", lat36, 64, LIM, 3, ALLCFG, 10);
+    run_search(WRITER, "writer", "families (small parameters) x write_gds max_points {5,6,7,8,12,20,0,4} x 4 configurations", fam, 4, LIMF, 0, ALLCFG, 10);
+    run_search(SLICE, "slice", "g=3 n=5..7 (+dup) x every sorted list of <=3 positions from {-1,0,1/2,..,3} x 2 axes, scaling 1000", lat36, 2, {}, 3, {}, 5);
+    run_search(SLICE, "slice", "families (small parameters) x 2 orientations x sorted lists of <=3 positions around min/mid/max x 2 axes", famslice, 1, {}, 0, {}, 15);
 
     if (T) {
         // ---- stage 2: full families
@@ -948,20 +948,21 @@ int main(int argc, char** argv) {
         build_families(famT, true, {0, 1, 2, 3});
         build_families(famTslice, true, {0, 2});
         run.note(fmt("thorough families: %zu members (comb t<=12, saw t<=12, spiral k<=6, stair/band s<=20, slivers, zigzag bands)", famT.size()));
-        run_search(FRACTURE, "fracture", "full families x 4 orientations x max_points {5,6,7,8,12,20} x 3 precisions", famT, 1, LIMF, 0, {}, 60);
-        run_search(WRITER, "writer", "full families x write_gds max_points {5,6,7,8,12,20,0,4} x 4 configurations", famT, 2, LIMF, 0, ALLCFG, 60);
-        run_search(SLICE, "slice", "full families x 2 orientations x sorted lists of <=3 positions around min/mid/max x 2 axes", famTslice, 1, {}, 0, {}, 60);
+        run_search(FRACTURE, "fracture", "full families x 4 orientations x max_points {5,6,7,8,12,20} x 3 precisions", famT, 1, LIMF, 0, {}, 30);
+        run_search(WRITER, "writer", "full families x write_gds max_points {5,6,7,8,12,20,0,4} x 4 configurations", famT, 2, LIMF, 0, ALLCFG, 30);
+        run_search(SLICE, "slice", "full families x 2 orientations x sorted lists of <=3 positions around min/mid/max x 2 axes", famTslice, 1, {}, 0, {}, 30);
         // ---- stage 3: larger lattice alphabets, smallest first; fracture with every repeated-vertex position
         struct L { int g, nmin, nmax; };
-        for (L l : {L{3, 7, 7}, L{4, 5, 5}, L{3, 8, 8}}) {
+        for (L l : {L{3, 7, 7}, L{3, 8, 8}, L{4, 5, 5}}) {  // smallest alphabet first; the 23M-case slice search of g=4 last
             if (run.out_of_time()) { run.bound("fracture", fmt("g=%d n=%d (not started: deadline)", l.g, l.nmin), false, 0); continue; }
             std::vector<Shape> alld, oned;
             build_lattice(alld, l.g, l.nmin, l.nmax, true);
             build_lattice(oned, l.g, l.nmin, l.nmax, false);
             run.note(fmt("alphabet g=%d n=%d: %zu simple polygons; %zu members with every repeated-vertex position", l.g, l.nmin, oned.size() / 2, alld.size()));
-            run_search(FRACTURE, "fracture", fmt("g=%d n=%d (+ every repeated-vertex position) x max_points {5,6,7,8} x 3 precisions, + limits {0..4}", l.g, l.nmin), alld, 16, LIM, l.g, {}, 20);
-            run_search(WRITER, "writer", fmt("g=%d n=%d (+1 repeated-vertex version each) x write_gds max_points {5,6,7,8,0,4} x 4 configurations", l.g, l.nmin), oned, 64, LIM, l.g, ALLCFG, 30);
-            run_search(SLICE, "slice", fmt("g=%d n=%d (+1 repeated-vertex version each) x every sorted list of <=3 positions from {-1,0,1/2,..,%d} x 2 axes", l.g, l.nmin, l.g), oned, 2, {}, l.g, {}, 20);
+            run_search(FRACTURE, "fracture", fmt("g=%d n=%d (+ every repeated-vertex position) x max_points {5,6,7,8} x 3 precisions, + limits {0..4}", l.g, l.nmin), alld, 16, LIM, l.g, {}, 5);
+            if (l.g == 3 && l.nmin == 7) continue;  // writer and slice for g=3 n=7 were already completed in stage 1
+            run_search(WRITER, "writer", fmt("g=%d n=%d (+1 repeated-vertex version each) x write_gds max_points {5,6,7,8,0,4} x 4 configurations", l.g, l.nmin), oned, 64, LIM, l.g, ALLCFG, 10);
+            run_search(SLICE, "slice", fmt("g=%d n=%d (+1 repeated-vertex version each) x every sorted list of <=3 positions from {-1,0,1/2,..,%d} x 2 axes", l.g, l.nmin, l.g), oned, 2, {}, l.g, {}, 5);
         }
     }
     return run.finish();
